@@ -34,6 +34,9 @@ def main(argv=None):
         print(f'{prop}: replay of {args.replay} shows no violation on this tree')
         return 0
     t0 = time.time()
+    # CPU-time limit per task (and per replay): far above what any task of the tier needs on
+    # the unchanged tree (quick: < 100 s, thorough: < 1 000 s)
+    run.set_task_limit(900 if args.tier == 'quick' else 7200)
     try:
         code = mod.main(args.tier, t0)
     except run.HarnessError as e:
